@@ -26,13 +26,18 @@ def run(ctx, mode='C02'):
                    'while/else, for/else, try/except(as)/else/finally, return) rendered in function, module and class scope; '
                    'per program: decision lists enumerated odometer-style with <=2 trips per loop up to a cap. '
                    'non-trivial = an execution with at least one successful read whose row has >1 alternative or sits in a loop/try')
-    nprog = ctx.pick(150, 1500)
-    cap = ctx.pick(30, 150)
-    trees = [(t, 'func') for t in rc.corpus_trees()]
+    c03 = (mode == 'C03')
+    nprog = ctx.pick(150, 1500) if not c03 else ctx.pick(120, 1200)
+    cap = ctx.pick(30, 150) if not c03 else ctx.pick(600, 4000)
+    trees = [(t, 'func') for t in rc.corpus_trees() if not (c03 and 'return' in repr(t))]
     for i in range(nprog):
         scope = ctx.rng.choice(['func'] * 7 + ['module'] * 2 + ['class'])
-        g = pygen.Gen(ctx.rng, allow_return=(scope == 'func'), full_raise=(mode == 'C03'))
-        trees.append((g.program(), scope))
+        if c03:
+            g = pygen.Gen(ctx.rng, allow_return=False, full_raise=True, max_stmts=ctx.rng.choice([4, 6, 8]), max_depth=3)
+            trees.append((g.program(lo=2, hi=4), scope))
+        else:
+            g = pygen.Gen(ctx.rng, allow_return=(scope == 'func'), full_raise=False)
+            trees.append((g.program(), scope))
 
     impl_terms, impl_noscope_terms, ref_terms = [], [], []
     impl_meta, ref_meta = [], []
@@ -59,9 +64,12 @@ def run(ctx, mode='C02'):
             ctx.count(('impl', src), nontrivial=True)
             continue
         ins = pygen.render_instrumented(body, scope)
-        oracle = rc.Oracle(ins, scope)
+        oracle = rc.Oracle(ins, scope, cont=c03)
         runs, exhaustive = rc.enumerate_decisions(oracle, cap)
         ctx.histogram('exhaustive', exhaustive)
+        if c03:
+            for b in direct_c03(obs, reads, runs, exhaustive):
+                direct_bad.append((idx, b, None))
         for eff, log, err in runs:
             if err:
                 direct_bad.append((idx, 'instrumented program raised %s' % err, eff))
@@ -89,7 +97,7 @@ def run(ctx, mode='C02'):
 
     bad_i = ctx.run_cases(rc.IMPORTS, rc.CHECK_PRELUDE, 'check_impl', impl_terms, shard=150)
     bad_n = ctx.run_cases(rc.IMPORTS, rc.CHECK_PRELUDE, 'check_impl_noscope', impl_noscope_terms, shard=150)
-    bad_r = ctx.run_cases(rc.IMPORTS, rc.CHECK_PRELUDE, 'check_ref', ref_terms, shard=400)
+    bad_r = ctx.run_cases(rc.IMPORTS, rc.CHECK_PRELUDE, 'check_ref_full' if c03 else 'check_ref', ref_terms, shard=400)
     bad_s = ctx.run_cases(rc.IMPORTS, rc.CHECK_PRELUDE, 'check_sound_instance', ref_terms, shard=400)
     cov['impl_cases'] = len(impl_terms) + len(impl_noscope_terms)
     cov['impl_disagreements'] = len(bad_i) + len(bad_n)
@@ -113,9 +121,51 @@ def run(ctx, mode='C02'):
         i, eff = ref_meta[bad_s[0]]
         ctx.violation('instance of theorem C02_sound fails in the model', {'kind': 'theorem-instance', 'tree': trees[i][0], 'decisions': eff},
                       found_input=False)
+    if mode == 'C02':
+        for f in ctx.open_findings():
+            if f['id'] == 'K3' and known_k3(ctx):
+                ctx.known_finding('K3', 'return inside a try body with a finally clause: the finally read obtains x = 1, supp lists only x = 2 and reports x = 1 unused (Coq: C02_unrestricted_refuted)')
     if not proof_ok:
         ctx.violation('proof obligations of Props/%s.v not discharged: %s' % (mode, ctx.notes),
                       {'kind': 'proof', 'theorem': 'Props/%s.v' % mode, 'build_error': cov.get('build_error')}, found_input=False)
+
+
+K3_TREE = [('try', [('assign', [], [(1, 'x')], 'plain'), ('if', [], [('return',)], [('pass',)]), ('assign', [], [(2, 'x')], 'plain')],
+            [], [('pass',)], [('expr', [(10, 'x')])], False, False)]
+
+
+def known_k3(ctx):
+    src, reads, binds, obs = rc.analyse_program(ctx, K3_TREE, 'func')
+    log, eff, ar, err = rc.Oracle(pygen.render_instrumented(K3_TREE, 'func'), 'func').run([0])
+    return bool(rc.direct_c02(obs, log))
+
+
+def direct_c03(obs, reads, runs, exhaustive):
+    """C03 on one program: over ALL executions (loops <= 2 trips) the delivered bindings per read are
+    exactly supp's alternatives; E02 iff unbound on every path."""
+    bad = []
+    seen_dyn = {}
+    for eff, log, err in runs:
+        for r, v in log:
+            seen_dyn.setdefault(r, set()).add(v)
+    for r in sorted(reads):
+        s = obs['seen'].get(r)
+        if s in (None, 'E42'):
+            bad.append('read %d not analysed' % r)
+            continue
+        dyn = seen_dyn.get(r, set())
+        extra = dyn - set(s)
+        if extra:
+            bad.append('read %d obtains %r on some execution but supp lists only %r' % (r, sorted(extra, key=str), s))
+        if exhaustive:
+            phantom = set(s) - dyn
+            if phantom and dyn:
+                bad.append('phantom: supp lists %r for read %d but no execution delivers it (delivered: %r)' % (
+                    sorted(phantom, key=str), r, sorted(dyn, key=str)))
+            if dyn and (r in obs['e02']) != (dyn == {None}):
+                bad.append('E02 at read %d is %s but the name is %s on every path' % (
+                    r, r in obs['e02'], 'unbound' if dyn == {None} else 'not unbound'))
+    return bad
 
 
 def replay(ctx, obj):
